@@ -1,17 +1,17 @@
-From Coq Require Import List Arith Bool Lia.
+From Coq Require Import List Arith Bool NArith Lia.
 From Crux Require Import Bridge.Timer.
 Import ListNotations.
 
 Lemma mem_in x l : mem x l = true <-> In x l.
 Proof.
   unfold mem. rewrite existsb_exists. split.
-  - intros (y & Hy & E). apply Nat.eqb_eq in E. subst. exact Hy.
-  - intros H. exists x. split; auto. apply Nat.eqb_refl.
+  - intros (y & Hy & E). apply N.eqb_eq in E. subst. exact Hy.
+  - intros H. exists x. split; auto. apply N.eqb_refl.
 Qed.
 
 Lemma in_remove_id x y l : In y (remove_id x l) <-> In y l /\ y <> x.
 Proof.
-  unfold remove_id. rewrite filter_In, negb_true_iff, Nat.eqb_neq. split; intros [A B]; split; auto.
+  unfold remove_id. rewrite filter_In, negb_true_iff, N.eqb_neq. split; intros [A B]; split; auto.
 Qed.
 
 Lemma NoDup_remove_id x l : NoDup l -> NoDup (remove_id x l).
